@@ -592,7 +592,7 @@ Definition judge_C17 (cfg : config) : judge_t := fun m o ob pr =>
             else if negb (Nat.eqb cp (ci_client c)) then (Some "request_uri_used_by_another_client", [], [])
             else if Z.ltb (ci_issued c + cf_par_life cfg) (m_now m) then (Some "request_uri_honoured_after_expiry", [], [])
             else if negb (list_eqb (o_scopes ob) (if String.eqb (ci_subject c) "" || String.eqb (ci_subject c) "query" then [] else [ci_subject c]))
-                 then (Some "authorization_did_not_proceed_in_the_pushed_response_mode", [], [])
+                 then (Some "authorization_did_not_proceed_with_the_pushed_response_mode_and_state", [], [])
             else (None, [], [])
         | None => (Some "unknown_request_uri_started_an_authorization", [], [])
         end
